@@ -44,11 +44,12 @@ Theorem recents_check_order_independent :
 Proof. exact recents_loop_perm. Qed.
 Print Assumptions recents_check_order_independent.
 
-(** ... and it is returned exactly when some entry names the signer at a height above number-limit (mod 2^64) *)
+(** ... and it is returned exactly when some entry names the signer and either number < limit or the entry's height is
+    above number-limit *)
 Theorem recents_check_meaning :
   forall (signer : bytes) (number limit : N) (l : list (N * bytes)),
   recents_loop signer number limit l = true <->
-  exists seen recent, In (seen, recent) l /\ recent = signer /\ (sub64 number limit < seen)%N.
+  exists seen recent, In (seen, recent) l /\ recent = signer /\ (number < limit \/ sub64 number limit < seen)%N.
 Proof. exact recents_loop_spec. Qed.
 Print Assumptions recents_check_meaning.
 
@@ -165,12 +166,11 @@ Example validators_concrete :
 Proof. vm_compute. repeat split; try reflexivity. discriminate. Qed.
 Print Assumptions validators_concrete.
 
-(** the recently-signed loop: a hit, a miss, and the uint64 wrap-around of [number - limit] (number < limit makes the
-    bound huge, so nothing is "recent") *)
+(** the recently-signed loop: a hit, a miss, and a low height (number < limit: every entry of the signer is recent) *)
 Example recents_concrete :
   recents_loop [x0a] 100 2 [(97%N, [x0a]); (99%N, [x0a]); (99%N, [x0b])] = true /\
   recents_loop [x0a] 100 2 [(99%N, [x0b]); (98%N, [x0a])] = false /\
-  recents_loop [x0a] 1 2 [(1%N, [x0a])] = false.
+  recents_loop [x0a] 1 2 [(0%N, [x0a])] = true.
 Proof. vm_compute. repeat split. Qed.
 Print Assumptions recents_concrete.
 
